@@ -982,6 +982,17 @@ class World(object):
                     t = htask.asynq(root)
                     self.register_task(root.tid, t)
                     val = t.value()
+                elif conv == "handoff":
+                    # the task object is made by another thread (work prepared elsewhere and handed over) and computed
+                    # here: it must run on THIS thread's scheduler, exactly as if it had been made here
+                    import threading as _thr
+                    box = []
+                    th = _thr.Thread(target=lambda: box.append(htask.asynq(root)), name="worker")
+                    th.start()
+                    th.join()
+                    t = box[0]
+                    self.register_task(root.tid, t)
+                    val = t.value()
                 elif conv == "yielded":
                     val = hparent(root)
                 elif conv == "async_call":
